@@ -126,7 +126,7 @@ def _task(args):
   return out
 
 
-def explore(pid, vseed, tier, n_runs, jobs, budget_s, chunk=8, start=0):
+def explore(pid, vseed, tier, n_runs, jobs, budget_s, chunk=8, start=0, stop_on_violation=False):
   """Run indices start..start+n_runs-1 (or until the wall budget is spent)."""
   t0 = time.time()
   ctx = mp.get_context("fork")
@@ -170,6 +170,8 @@ def explore(pid, vseed, tier, n_runs, jobs, budget_s, chunk=8, start=0):
         if not exhausted:
           stopped_early = True
         exhausted = True
+      if stop_on_violation and any(r.get("violation") for r in results):
+        exhausted = True          # development mode: the first violation is enough
       if time.time() > hard_deadline:
         for f in pending:
           f.cancel()
